@@ -98,7 +98,8 @@ def _close(got, ref, scale):
         g = Fraction(float(got))
     except (TypeError, ValueError, OverflowError):
         return False
-    return abs(g - Fraction(ref)) <= Fraction(REL_TOL) * Fraction(scale)
+    # relative part + a few quanta of the denormal range (endpoints like 2e-313 have no 1e-12 resolution)
+    return abs(g - Fraction(ref)) <= Fraction(REL_TOL) * Fraction(scale) + 16 * Fraction(5e-324)
 
 
 # ------------------------------------------------------------------------------------------
@@ -431,7 +432,7 @@ def check_case(case) -> Result:
         visited = [[float(p[j]) for p in points] for j in range(n)]
         for j in range(n):
             lo, hi = min(ext[j]), max(ext[j])
-            tol = REL_TOL * max(abs(lo), abs(hi), 1e-300)
+            tol = REL_TOL * max(abs(lo), abs(hi)) + 16 * 5e-324
             vmin, vmax = min(visited[j]), max(visited[j])
             if vmin < lo - tol or vmax > hi + tol:
                 return res.fail("md_extents", f"axis {j}: visited [{vmin},{vmax}] outside extents {ext[j]!r}", **feats)
@@ -617,7 +618,7 @@ def run(ctx):
         seen.setdefault(repr(c), c)
     ctx.sweep(list(seen.values()), check_case)
     ctx.extra["enumerated_part"] = len(seen)
-    ctx.hyp(_strategy, check_case, max_examples=ctx.pick(4000, 60000))
+    ctx.hyp(_strategy, check_case, max_examples=ctx.pick(5000, 200000))
 
 
 def replay(case):
